@@ -38,7 +38,11 @@ Perms(n) == {p \in [1..n -> 1..n] : \A i, j \in 1..n : i # j => p[i] # p[j]}
 \* n/d = Fraction(v).limit_denominator(10^5), close <=> |v - n/d| <= 1e-7*max(1,|v|),
 \* zero <=> v == 0.0 exactly, neg <=> v < 0.
 IsQ(x)        == x.k = "q" /\ x.close
-ObsEq(x, a)   == IsQ(x) /\ x.n * a[2] = a[1] * x.d      \* observed x equals rational a
+\* observed x (a fraction in lowest terms) equals the rational a = <<num, den>>, den > 0:
+\* then x.d divides den; written so that no large product is formed.
+ObsEq(x, a)   == /\ IsQ(x)
+                 /\ IF a[1] = 0 THEN x.n = 0
+                    ELSE a[2] % x.d = 0 /\ x.n * (a[2] \div x.d) = a[1]
 ObsEqInt(x,i) == IsQ(x) /\ x.n = i * x.d
 ObsNaN(x)     == x.k = "nan"
 ObsQ(x)       == <<x.n, x.d>>
